@@ -1,4 +1,6 @@
 mod accounting;
+#[cfg(any(kani, mmtk_verif))]
+pub use self::accounting::PageAccounting as VerifPageAccounting;
 #[macro_use]
 pub(crate) mod layout;
 pub(crate) mod blockpageresource;
